@@ -178,18 +178,37 @@ def rule_ch1(prog):
                         c = closure_arg(prog, g, a)
                         if c is not None and c not in units:
                             units.append(c)
-    for u in units:
-        reads = fn_reads_fields(u)
-        calls = {callee_name(t) for _, t in u.calls()}
+    # the same pass written as a `for s in queued.iter() { .. }` loop: the loop body is the unit
+    from kq.analysis import all_operands_in_block
+    from kq.core import is_place, proj_fields
+    from rules.r_loopvar import iterator_driver, loops_of
+    loop_units = []
+    for nm in ("handle_chord", "decompose_chord_into_action_queue"):
+        f = prog.fn(W + nm)
+        for g in [f] + prog.closures_of(f):
+            for lp in loops_of(g):
+                if "layout::Queued" not in (iterator_driver(g, lp) or ""):
+                    continue
+                reads, calls = set(), set()
+                for b in lp.body:
+                    for o in all_operands_in_block(g, b):
+                        if is_place(o):
+                            reads |= {(a, fl) for (a, _v, fl) in proj_fields(o)}
+                    if g.term(b)["k"] == "call":
+                        calls.add(callee_name(g.term(b)))
+                loop_units.append(("%s/loop@%s" % (g.norm.split("WaitingState::")[-1], nm), g, lp, reads, calls))
+    todo = [(u.norm.split("WaitingState::")[-1], u, u.loc, fn_reads_fields(u), {callee_name(t) for _, t in u.calls()}) for u in units]
+    todo += [(key, g, "%s:%s" % (g.file, g.line_of(lp.h)), reads, calls) for key, g, lp, reads, calls in loop_units]
+    for key, u, where, reads, calls in todo:
         reads_event = (Q, "event") in reads or (Q + "::event") in calls
         reads_since = (Q, "since") in reads
         if not reads_event:
             continue
         res.fn(u)
-        res.inst(u.norm.split("WaitingState::")[-1], reads_event=True, reads_since=reads_since)
+        res.inst(key, reads_event=True, reads_since=reads_since)
         res.oblige(reads_since)
         if not reads_since:
-            res.viol(u.norm.split("WaitingState::")[-1], u.loc,
+            res.viol(key, where,
                      "this pass over the queued events looks at the events but not at their age (Queued.since): keys pressed outside "
                      "the chord window are treated as chord members here, unlike in the sibling passes")
     return res
